@@ -20,6 +20,14 @@ def roundtrip(acc, kind, inst, rp, obj, printer, parser, fields):
     if not isinstance(text, str):
         acc.viol(printer.__name__, 'printer does not return text', inst, repro=rp, observed=text)
         return
+    if acc.states % 3 == 0:
+        # the same text first goes through the generic parser (as show() does in the notebooks); whatever that call
+        # does or raises, it must not influence the specific parser
+        try:
+            from gambatools.automaton_algorithms import parse_automaton
+            parse_automaton(text)
+        except Exception:
+            pass
     ok, back = core.lib_call(acc, parser.__name__, dict(inst, text=text), parser, text, repro=rp, clause='printed text is rejected by the parser')
     acc.transitions += 1
     if not ok:
@@ -79,12 +87,12 @@ def t_nfa(acc, space, shard, nshard, variants):
                 acc.nontrivial += 1
 
 
-def t_pda(acc, n, k, g, t, shard, nshard, stack, eps, stride=1, offset=0):
+def t_pda(acc, n, k, g, t, shard, nshard, stack, eps, stride=1, offset=0, scheme='s'):
     from gambatools.pda_algorithms import print_pda, parse_pda
     for idx, spec in pda.pdas(n, k, g, t):
         if idx % stride == offset % stride and (idx // stride) % nshard == shard:
-            rp = {'fn': 'mc.props.c16:one', 'mode': 'plain', 'params': {'kind': 'pda', 'spec': spec, 'opt': [list(stack), eps]}}
-            P = pda.build(spec, tuple(stack), 's', eps)
+            rp = {'fn': 'mc.props.c16:one', 'mode': 'plain', 'params': {'kind': 'pda', 'spec': spec, 'opt': [list(stack), eps, scheme]}}
+            P = pda.build(spec, tuple(stack), scheme, eps)
             roundtrip(acc, 'PDA', {'pda': pda.show(spec, tuple(stack)), 'eps': eps}, rp, P, print_pda, parse_pda, f_pda)
             if len(spec[4]) >= 2:
                 acc.nontrivial += 1
@@ -92,21 +100,21 @@ def t_pda(acc, n, k, g, t, shard, nshard, stack, eps, stride=1, offset=0):
                     acc.sample({'pda': pda.show(spec, tuple(stack)), 'text': print_pda(P)})
 
 
-def build_tm(spec, blank, empty_sigma):
+def build_tm(spec, blank, empty_sigma, kw=None):
     from gambatools.tm import TM
-    Q, sigma, gamma, delta, q0, qa, qr, blank = tm.parts(spec, blank)
+    Q, sigma, gamma, delta, q0, qa, qr, blank = tm.parts(spec, blank, **(kw or {}))
     if empty_sigma:
         sigma = []
     return TM(set(Q), set(sigma), set(gamma), dict(delta), q0, qa, qr, blank)
 
 
-def t_tm(acc, w, g, shard, nshard, blank, empty_sigma, stride=1, offset=0):
+def t_tm(acc, w, g, shard, nshard, blank, empty_sigma, stride=1, offset=0, kw=None):
     from gambatools.tm_algorithms import print_tm, parse_tm
     gen = [(i, s) for i, s in enumerate(tm.tm_halting_start(g))] if w == 0 else tm.tms(w, g)
     for idx, spec in gen:
         if idx % stride == offset % stride and (idx // stride) % nshard == shard:
-            rp = {'fn': 'mc.props.c16:one', 'mode': 'plain', 'params': {'kind': 'tm', 'spec': spec, 'opt': [blank, empty_sigma]}}
-            T = build_tm(spec, blank, empty_sigma)
+            rp = {'fn': 'mc.props.c16:one', 'mode': 'plain', 'params': {'kind': 'tm', 'spec': spec, 'opt': [blank, empty_sigma, kw]}}
+            T = build_tm(spec, blank, empty_sigma, kw)
             roundtrip(acc, 'TM', {'tm': tm.show(spec, blank), 'empty_sigma': empty_sigma}, rp, T, print_tm, parse_tm, f_tm)
             acc.nontrivial += 1
 
@@ -176,15 +184,15 @@ def f_cfg(G):
     return {'V': set(map(str, G.V)), 'Sigma': set(map(str, G.Sigma)), 'S': str(G.S), 'rules': dict(by), 'order': list(by)}
 
 
-def check_cfg(acc, spec):
+def check_cfg(acc, spec, epsilon='ε'):
     from gambatools.cfg_algorithms import cfg_print_simple, parse_simple_cfg
     g = normalise_grammar(spec)
     if g is None:
         acc.c['grammar_not_expressible_in_simple_format'] += 1
         return
-    rp = {'fn': 'mc.props.c16:one', 'mode': 'plain', 'params': {'kind': 'cfg', 'spec': g, 'opt': None}}
-    G = cfg.to_lib(g)
-    inst = {'grammar': cfg.show(g)}
+    rp = {'fn': 'mc.props.c16:one', 'mode': 'plain', 'params': {'kind': 'cfg', 'spec': g, 'opt': epsilon}}
+    G = cfg.to_lib(g, epsilon)
+    inst = {'grammar': cfg.show(g), 'grammar_epsilon_symbol': epsilon}
     acc.states += 1
     ok, text = core.lib_call(acc, 'cfg_print_simple', inst, cfg_print_simple, G, repro=rp)
     acc.transitions += 1
@@ -209,6 +217,10 @@ def t_cfg(acc, space, shard, nshard, stride=1, offset=0):
     for idx, spec in gen:
         if idx % stride == offset % stride and (idx // stride) % nshard == shard:
             check_cfg(acc, spec)
+            if (idx // stride) % 4 == 0:
+                check_cfg(acc, spec, 'e')       # the grammar object carries another epsilon symbol; 'e' is not a terminal of it
+            if (idx // stride) % 4 == 1:
+                check_cfg(acc, spec, '_')
 
 
 def one(acc, kind, spec, opt):
@@ -221,14 +233,14 @@ def one(acc, kind, spec, opt):
         roundtrip(acc, 'NFA', {'nfa': spec}, None, spaces.build_nfa(spec, *opt), print_nfa, parse_nfa, f_nfa)
     elif kind == 'pda':
         from gambatools.pda_algorithms import print_pda, parse_pda
-        roundtrip(acc, 'PDA', {'pda': spec}, None, pda.build(spec, tuple(opt[0]), 's', opt[1]), print_pda, parse_pda, f_pda)
+        roundtrip(acc, 'PDA', {'pda': spec}, None, pda.build(spec, tuple(opt[0]), opt[2] if len(opt) > 2 else 's', opt[1]), print_pda, parse_pda, f_pda)
     elif kind == 'tm':
         from gambatools.tm_algorithms import print_tm, parse_tm
-        roundtrip(acc, 'TM', {'tm': spec}, None, build_tm(spec, opt[0], opt[1]), print_tm, parse_tm, f_tm)
+        roundtrip(acc, 'TM', {'tm': spec}, None, build_tm(spec, opt[0], opt[1], opt[2] if len(opt) > 2 else None), print_tm, parse_tm, f_tm)
     elif kind == 're':
         check_re(acc, spec)
     elif kind == 'cfg':
-        check_cfg(acc, spec)
+        check_cfg(acc, spec, opt or 'ε')
 
 
 def plan(tier, seed):
@@ -243,19 +255,25 @@ def plan(tier, seed):
         add('t_dfa', 1, n=n, k=k)
     add('t_dfa', 8, n=3, k=2)
     add('t_dfa', 1, n=2, k=2, scheme='q')
-    NV = [['s', '_', 'sparse'], ['s', 'ε', 'sparse'], ['s', '_', 'total'], ['q', 'ε', 'empties']]
+    NV = [['s', '_', 'sparse'], ['s', 'ε', 'sparse'], ['s', '_', 'total'], ['q', 'ε', 'empties'], ['k', '_', 'sparse']]
     add('t_nfa', 1, space=['nfa', 1, 0, None, False], variants=NV)
     add('t_nfa', 1, space=['nfa', 1, 1, None, False], variants=NV)
     add('t_nfa', 1, space=['nfa', 1, 2, None, False], variants=NV)
     add('t_nfa', 1, space=['nfa', 2, 0, None, False], variants=NV)
     add('t_nfa', 4, space=['nfa', 2, 1, None, False], variants=NV)
-    add('t_nfa', 16, space=['nfa', 2, 2, None, False], variants=NV[:2] if q else NV)
+    add('t_nfa', 16, space=['nfa', 2, 2, None, False], variants=(NV[:2] + NV[4:]) if q else NV)
     add('t_nfa', 8, space=['nfa', 3, 1, 3, False], variants=NV[:1])
     add('t_pda', 1, n=1, k=1, g=1, t=4, stack=['x'], eps='_')
     add('t_pda', 1, n=1, k=1, g=1, t=4, stack=['$'], eps='ε')
     add('t_pda', 16, n=2, k=1, g=1, t=3, stack=['x'], eps='_', stride=2 if q else 1, offset=seed)
     add('t_pda', 8, n=2, k=2, g=1, t=2, stack=['x'], eps='ε')
     add('t_pda', 8, n=2, k=1, g=2, t=2, stack=['x', '$'], eps='_')
+    add('t_pda', 4, n=2, k=1, g=2, t=2, stack=['%', '#'], eps='_')
+    add('t_pda', 2, n=1, k=1, g=2, t=3, stack=['%', '&'], eps='ε')
+    add('t_pda', 4, n=2, k=1, g=1, t=2, stack=['x'], eps='_', scheme='k')
+    add('t_tm', 2, w=1, g=3, blank='_', empty_sigma=False, kw={'gamma': ['a', '%', '_'], 'sigma': ['a']})
+    add('t_tm', 2, w=1, g=3, blank='□', empty_sigma=False, kw={'gamma': ['%', '#', '□'], 'sigma': ['%'], 'names': ['epsilon']})
+    add('t_tm', 4, w=2, g=2, blank='_', empty_sigma=False, stride=16, kw={'names': ['epsilon', 'stack_symbols']})
     for blank in ('_', '□'):
         for es in (False, True):
             add('t_tm', 1, w=0, g=2, blank=blank, empty_sigma=es)
@@ -270,4 +288,4 @@ def plan(tier, seed):
     return {'tasks': tasks, 'bounds': {'spaces': 'DFA(n<=3,k<=2, k=0); NFA(1,k),(2,k) all x eps _/ε x encodings; NFA(3,1,<=3); PDA(1,1,1,<=4), PDA(2,1,1,<=3), PDA(2,2,1,<=2), PDA(2,1,2,<=2) with stack symbols x,$; TM(0,2), TM(1,2), TM(1,3), TM(2,2) with blank _/□ and Sigma possibly empty; RE({}) in 3 printers; expressible grammars of CFG2, CFG2+, CNF(3){}'.format(8 if q else 9, ' (strided)' if q else '')},
             'exhaustive': True,
             'rule': 'every object of the spaces with a printable epsilon/blank: parse(print(x)) compared field by field with x; expressions: exact language equality and identical printed form after re-parsing; grammars: == and own field-wise comparison; non-trivial = object with >= 2 transitions / >= 4 nodes / >= 3 rules',
-            'assumptions': ['epsilon \'\' is not printable and not in the space', 'only grammars expressible in the simple format (every variable has a rule, start variable owns the first rule)']}
+            'assumptions': ['epsilon \'\' is not printable and not in the space', 'only grammars expressible in the simple format (every variable has a rule, start variable owns the first rule)', 'state names that are keywords of OTHER formats (accept, reject, blank, ... for an NFA or PDA; epsilon, stack_symbols for a TM) are legal and in the space; %, #, &, $ as stack / tape symbols; grammar objects with epsilon symbol ε, _ or e; one text in three first goes through the generic parse_automaton']}
